@@ -507,6 +507,58 @@ def line_preempt_run(cfg, prog_a, prog_b, k):
     return st["fired"], ta, tb
 
 
+def line_preempt_run2(cfg, prog_a, prog_b, k, j):
+    """Two-phase schedule at line granularity: A is suspended after its k-th executed line of config.py; B then runs up to
+    its j-th executed line of config.py and is suspended there; A resumes and runs to its end; then B resumes.
+    (A operation of B thus lands INSIDE an operation of A, and the rest of B sees what A's resumed operation left.)"""
+    import sys
+    ta, tb = [], []
+    a_parked, a_go, b_parked, b_go = threading.Event(), threading.Event(), threading.Event(), threading.Event()
+    st = {"na": 0, "nb": 0, "fa": False, "fb": False}
+
+    def mk(local_key, fired_key, limit, parked, go):
+        def local(frame, event, arg):
+            if event == "line" and not st[fired_key]:
+                st[local_key] += 1
+                if st[local_key] == limit:
+                    st[fired_key] = True
+                    parked.set()
+                    go.wait(10)
+            return local
+
+        def tracer(frame, event, arg):
+            if frame.f_code.co_filename.endswith("sqllineage/config.py"):
+                return local
+            return None
+        return tracer
+
+    class NoSched:
+        index = {}
+
+        def finish(self, me):
+            pass
+
+    def run(prog, out, tracer, parked, me):
+        sys.settrace(tracer)
+        try:
+            real_thread(cfg, prog, out, NoSched(), me)
+        finally:
+            sys.settrace(None)
+            parked.set()
+
+    a = threading.Thread(target=run, args=(prog_a, ta, mk("na", "fa", k, a_parked, a_go), a_parked, 0))
+    a.start()
+    a_parked.wait(10)
+    b = threading.Thread(target=run, args=(prog_b, tb, mk("nb", "fb", j, b_parked, b_go), b_parked, 1))
+    b.start()
+    b_parked.wait(10)
+    a_go.set()
+    a.join(10)
+    b_go.set()
+    b.join(10)
+    return st["fa"], st["fb"], ta, tb
+
+
 def spec_to_real(spec_outs: list[str], prog) -> list[str]:
     """Project the specification's outputs onto what the real-thread runner records:
     reads, 'in' when a scope is entered, RC/RO when an item raises."""
@@ -779,6 +831,41 @@ def main() -> int:
                         spec_failures.append({"suite": "T1-line-preemption", "env": ENVS[e], "program_A": programs[ia],
                                               "program_B": programs[ib], "A_suspended_after_config_py_line_event": k,
                                               "thread": who, "impl_outputs": tr, "spec_outputs": want})
+                k += 1
+    # two-phase schedules: an operation of B lands inside an operation of A and the rest of B runs after A's operation ended
+    dist["line_preemption_two_phase_runs"] = 0
+    lp2 = [(0, 0), (0, 4), (4, 0), (3, 0), (2, 6)] if quick else [(a, b) for a in range(len(FIXED_PROGRAMS)) for b in (0, 1, 4, 8)]
+    for gi, (ia, ib) in enumerate(lp2):
+        e = gi % len(ENVS)
+        with EnvPatch(ENVS[e]):
+            k = 1
+            while k < 120:
+                any_fired = False
+                j = 1
+                while j < 120:
+                    cfg = fresh_loader()
+                    fa, fb, ta, tb = line_preempt_run2(cfg, programs[ia], programs[ib], k, j)
+                    if not fa:
+                        break
+                    any_fired = True
+                    if not fb:
+                        break
+                    ck.count()
+                    dist["line_preemption_two_phase_runs"] += 1
+                    for who, tr, i in (("A", ta, ia), ("B", tb, ib)):
+                        want = spec_to_real(spec[(e, i)], programs[i])
+                        if tr != want:
+                            spec_failures.append({"suite": "T1-line-preemption-two-phase", "env": ENVS[e], "program_A": programs[ia],
+                                                  "program_B": programs[ib], "A_suspended_after_line_event": k, "B_suspended_after_line_event": j,
+                                                  "thread": who, "impl_outputs": tr, "spec_outputs": want})
+                    leftovers = (dict(cfg._thread_config) if hasattr(cfg, "_thread_config") else None)
+                    if leftovers:
+                        spec_failures.append({"suite": "T1-line-preemption-two-phase", "program_A": programs[ia], "program_B": programs[ib],
+                                              "A_suspended_after_line_event": k, "B_suspended_after_line_event": j,
+                                              "spec": "no per-thread entry survives the end of every scope", "left": repr(leftovers)})
+                    j += (1 if quick and j < 12 else 2 if quick else 1)
+                if not any_fired:
+                    break
                 k += 1
     virtual_ids(True)
 
